@@ -193,12 +193,12 @@ K = {"T1": ["T1", False], "T2": ["T2", False], "T3": ["T3", False], "T1u": ["T1"
 
 
 def lines_gen(L, D, E, kinds, unit="  ", base=0, free=(), ws=(), blank=True, suffix="", simulate=None, code_a="", code_b="",
-              mb=False, max_code=99, empty_default=False, pairs=False, preamble=0, inline=False, pair_kind="R", eol="\n", tag_sep=" ", flag_val="", quote="'", flags_first=False, tail=False):
+              mb=False, max_code=99, empty_default=False, pairs=False, preamble=0, inline=False, pair_kind="R", eol="\n", tag_sep=" ", flag_val="", quote="'", flags_first=False, tail=False, pad="", wide=False, free_tags=True, tail_kinds=None):
     from vlib import TlaSet
     g = {"base": "GenLines", "constraint": "Feasible",
          "consts": {"L": L, "D": D, "E": E, "Kinds": TlaSet([K[k] for k in kinds]), "Unit": Chars(unit), "Base": base,
-                    "FreeInd": TlaSet(list(free)), "WsLens": TlaSet(list(ws)), "Blank": blank, "Suffix": Chars(suffix), "CodeA": Chars(code_a), "CodeB": Chars(code_b), "MbCode": mb, "MaxCode": max_code, "EmptyDefault": empty_default, "PairLines": pairs, "Preamble": preamble,
-                    "InlineTags": inline, "PairKind": K[pair_kind], "EOL": Chars(eol), "TagSep": Chars(tag_sep), "FlagVal": Chars(flag_val), "QuoteCh": ord(quote), "FlagsFirst": flags_first, "TailElems": tail,
+                    "FreeInd": TlaSet(list(free)), "FreeTags": free_tags, "WsLens": TlaSet(list(ws)), "Blank": blank, "Suffix": Chars(suffix), "CodeA": Chars(code_a), "CodeB": Chars(code_b), "MbCode": mb, "MaxCode": max_code, "EmptyDefault": empty_default, "PairLines": pairs, "Preamble": preamble,
+                    "InlineTags": inline, "PairKind": K[pair_kind], "EOL": Chars(eol), "TagSep": Chars(tag_sep), "FlagVal": Chars(flag_val), "QuoteCh": ord(quote), "FlagsFirst": flags_first, "TailElems": tail, "TailKinds": TlaSet([K[k] for k in (tail_kinds or kinds)]), "TagPad": Chars(pad), "WideCode": wide,
                     "PastTo": Chars(PAST), "FutureTo": Chars(FUTURE),
                     "Tos": [Chars(t) for t in TOS], "Names": [Chars(n) for n in MNAMES]}}
     if simulate:
@@ -227,7 +227,7 @@ def kitchen_sink(ctx, kinds, L, n):
     return lines_gen(L, 3, 5, kinds, unit=["  ", "\t", " \t", "    "][sd % 4], base=sd % 2, free=(0, 1, 2), ws=(1, 2), blank=True,
                      suffix=["", "é", "あ"][sd % 3], tag_sep=[" ", "\n     "][(sd // 2) % 2], inline=True, pairs=True,
                      code_b=["", " = 1"][(sd // 3) % 2], flag_val=["", "='1'", '="true"'][(sd // 2) % 3], quote=["'", '"'][(sd + 1) % 2],
-                     flags_first=(sd % 3 == 1), tail=True, simulate=(n, L))
+                     flags_first=(sd % 3 == 1), tail=True, pad=["", " "][(sd // 3) % 2], simulate=(n, L))
 
 
 def block_jobs(ctx, invariants, ops, lite=False):
@@ -250,6 +250,8 @@ def block_jobs(ctx, invariants, ops, lite=False):
                 lines_gen(4, 2, 2, ["R", "S", "P"], blank=False, flag_val="='1'"),                   # valued flag attribute: skip='1'
                 lines_gen(4, 2, 2, ["R", "S", "T"], blank=False, quote='"', flags_first=True),
                 lines_gen(4, 2, 2, ["R", "P"], blank=True, tail=True, max_code=2),                      # elements behind code on one line
+                lines_gen(5, 1, 1, ["R"], blank=True, wide=True, max_code=2),                           # lines of wide blanks (U+3000, NBSP) only
+                lines_gen(4, 2, 2, ["R", "P"], blank=False, pad=" "),                                   # padded tags: <tag a='b' >
                 lines_gen(14, 3, 5, ["R", "P", "S", "SP", "SF", "U", "T", "F"], ws=(2,), base=ctx.seed % 2, simulate=(15 if lite else 80, 14)),
                 kitchen_sink(ctx, ["R", "P", "S", "U", "T", "F"], 12, 10 if lite else 40),
                 dict(lines_gen(5 - d // 2, 2, 2, ["R", "P", "T"], ws=(2,)), cfg=html)]
@@ -264,6 +266,8 @@ def block_jobs(ctx, invariants, ops, lite=False):
         ("block-sim", [lines_gen(14, 3, 5, ["R", "P", "S", "SP", "SF", "U", "T", "F"], ws=(2,), base=ctx.seed % 2, simulate=(20000, 14)),
                        kitchen_sink(ctx, ["R", "P", "S", "U", "T", "F"], 14, 6000)]),
         ("block-html", [dict(lines_gen(7, 2, 2, ["R", "P", "T"], ws=(2,)), cfg=html)]),
+        ("block-wide-blanks", [lines_gen(7, 1, 2, ["R"], blank=True, wide=True, max_code=3), lines_gen(6, 2, 2, ["R", "P"], base=1, ws=(1,), wide=True)]),
+        ("block-padded-tags", [lines_gen(6, 2, 2, ["R", "P", "T"], blank=False, pad=" "), lines_gen(6, 2, 2, ["R", "P"], pad="  ")]),
         ("block-tail-elements", [lines_gen(7, 2, 2, ["R", "P"], blank=True, tail=True, max_code=3)]),
         ("block-valued-flags", [lines_gen(7, 2, 2, ["R", "S", "P"], blank=False, flag_val="='1'"), lines_gen(6, 2, 2, ["R", "S"], flag_val='=""'),
                                 lines_gen(7, 2, 2, ["R", "S", "T"], blank=False, quote='"', flags_first=True)]),
@@ -300,6 +304,7 @@ def unwrap_jobs(ctx, invariants, ops, lite=False):
                 lines_gen(6, 2, 2, ["Ru", "Su"], free=(1,), blank=False, flag_val="='1'"),
                 lines_gen(6, 2, 2, ["Ru", "Tu", "P"], free=(1,), blank=False, quote='"', flags_first=True),   # flags first, double quotes
                 lines_gen(6, 2, 2, ["Ru", "R"], blank=False, tail=True, max_code=2),
+                lines_gen(6, 2, 2, ["Ru", "P"], blank=False, pad=" "),
                 lines_gen(16, 3, 4, ["Ru", "R", "P", "Pu", "S", "Su"], free=(0, 1, 2), ws=(2,), simulate=(15 if lite else 80, 16)),
                 kitchen_sink(ctx, ["Ru", "R", "P", "Pu", "T", "Tu", "Su"], 14, 10 if lite else 40)]
         ctx.job("unwrap", gens=gens, invariants=invariants, ops=ops, cfg=cfg, nontrivial=has_ready)
@@ -320,7 +325,9 @@ def unwrap_jobs(ctx, invariants, ops, lite=False):
         ("unwrap-interior-blanks", [lines_gen(8, 1, 1, ["Ru"], free=(0, 1, 2), blank=False, base=1, code_b=" = 1"),
                                     lines_gen(8, 1, 1, ["Ru"], unit="\t", free=(0, 2), blank=False, base=1, code_a=" "),
                                     lines_gen(9, 2, 2, ["Ru", "R"], unit="    ", free=(0,), blank=False, base=1, code_b=" = 1 ")]),
-        ("unwrap-tail-elements", [lines_gen(8, 2, 2, ["Ru", "R", "P"], blank=False, tail=True, max_code=3)]),
+        ("unwrap-tail-elements", [lines_gen(8, 2, 2, ["Ru", "R", "P"], blank=False, tail=True, max_code=3),
+                                  lines_gen(7, 1, 3, ["Ru", "R"], blank=False, tail=True, free=(2,), free_tags=False, max_code=3),
+                                  lines_gen(7, 2, 2, ["Ru", "P"], blank=False, pad=" ")]),
         ("unwrap-flags", [lines_gen(8, 2, 2, ["Ru", "Su", "Pu"], free=(1,), blank=False),
                           lines_gen(8, 1, 1, ["Ru"], free=(0, 1, 2), blank=False, flag_val='="true"'),
                           lines_gen(8, 2, 2, ["Ru", "Su", "R"], free=(1,), blank=False, flag_val="='1'"),
@@ -496,6 +503,10 @@ def time_probe_job(ctx, invariants):
 def check_C04(ctx):
     truncated_closer_job(ctx, ["Inv_C04"])
     time_probe_job(ctx, ["Inv_C04"])
+    # single tags from the grammar generator (odd separators, word characters that look like blanks) under targets / clock
+    # that make the well-formed ones ready: whatever is not a well-formed ready element must leave the text untouched
+    ctx.job("tag-k1", gens=[{"base": "GenTag", "extra_inv": "RoundTrip", "consts": tag_consts(1, True)}],
+            invariants=["Inv_C04"], ops=[{"op": "clean"}], cfg={"ds": "<", "de": ">"}, nontrivial=None)
     block_jobs(ctx, ["Inv_C04"], [{"op": "clean"}])
     unwrap_jobs(ctx, ["Inv_C04"], [{"op": "clean"}], lite=True)
     inline_jobs(ctx, ["Inv_C04"], [{"op": "clean"}])
@@ -511,6 +522,7 @@ def check_C11(ctx):
 
 def check_C12(ctx):
     unwrap_jobs(ctx, ["Inv_C12"], [{"op": "clean"}])
+    late_removal_job(ctx, ["Inv_C12"])
     repo_docs_job(ctx, ["Inv_C12"], [{"op": "clean"}])
 
 
@@ -519,9 +531,19 @@ def check_C13(ctx):
     repo_docs_job(ctx, ["Inv_C13"], [{"op": "clean"}])
 
 
+def late_removal_job(ctx, invariants):
+    """an unwrap-block with a child on its tag line or on a wrapper line, kept lines indented deeper than the block's tag
+    behind it, and a later removal: a wrong pair index makes the dedent run on past the block"""
+    g = lines_gen(8, 1, 3, ["Ru", "R"], blank=False, tail=True, tail_kinds=["R"], free=(2,), free_tags=False, max_code=4)
+    g["constraint"] = "FeasibleU"            # the document begins with the unwrap-block
+    ctx.job("unwrap-late-removal", gens=[g],
+            invariants=invariants, ops=[{"op": "clean"}], cfg={"ds": "<", "de": ">"}, nontrivial=has_ready)
+
+
 def check_C14(ctx):
     block_jobs(ctx, ["Inv_C14"], [{"op": "clean"}], lite=True)
     unwrap_jobs(ctx, ["Inv_C14"], [{"op": "clean"}], lite=False)
+    late_removal_job(ctx, ["Inv_C14"])
     inline_jobs(ctx, ["Inv_C14"], [{"op": "clean"}])
     ctx.quick or repo_docs_job(ctx, ["Inv_C14"], [{"op": "clean"}])
 
@@ -599,7 +621,8 @@ def check_C17(ctx):
 
 # ---------------------------------------------------------------------------------------------------------------
 SPELLINGS = [("<", ">"), ("<!-- <", "> -->"), ("/* <", "> */"), ("// --", "-- //"), ("# <", "> #"), ("%%", "%%"),
-             ("《", "》"), ("[[", "]]"), ("(*", "*)"), ("{{", "}}"), ("<?", "?>"), ("$(", ")"), ("\\begin{", "}")]
+             ("《", "》"), ("[[", "]]"), ("(*", "*)"), ("{{", "}}"), ("<?", "?>"), ("$(", ")"), ("\\begin{", "}"),
+             ("{{ ", " }}"), ("<!--", "-->")]
 NAME_POOL = [("tl", "rm"), ("time-limited", "removal-marker"), ("期限", "マーカー"), ("TimeLimited", "RemovalMarker"), ("FIXME", "rm_v2.old")]
 
 CANON_TOS = ["2024-02-29 23:59:59", "2024-03-01 00:00:00", "2023-12-31 23:59:59", "2024-01-01 00:00:00",
@@ -675,11 +698,12 @@ def check_C06(ctx):
 
 
 def tag_consts(k, full):
-    vals = ["", "a", "a b", "x=y", "it's", '"q"', "skip", "unwrap-block", "to='2000-01-01 00:00:00'", "<", "l1\nl2", "C:\\dir\\", "\\"]
+    vals = ["", "a", "a b", "x=y", "it's", '"q"', "skip", "unwrap-block", "to='2000-01-01 00:00:00'", "<", "l1\nl2", "C:\\dir\\", "\\", "年末まで", "é"]
     if not full:
-        vals = ["", "a", "a b", "x=y", "it's", '"q"', "skip", "l1\nl2", "<", "a\\"]
-    return {"TagNames": [Chars("rm"), Chars("tl")] if full else [Chars("rm")],
-            "AttrNames": [Chars(x) for x in (["name", "to", "skip", "c", "unwrap-block"] if full else ["name", "skip", "c"])],
+        vals = ["", "a", "a b", "x=y", "it's", '"q"', "skip", "l1\nl2", "<", "a\\", "年末まで"]
+    # a tab, a carriage return, a wide blank are ordinary word characters of the grammar (separators: space, line break)
+    return {"TagNames": [Chars("rm"), Chars("tl"), Chars("rm\tc")] if full else [Chars("rm"), Chars("rm\u3000")],
+            "AttrNames": [Chars(x) for x in (["name", "to", "skip", "c", "unwrap-block", "name\t", "\rskip"] if full else ["name", "skip", "c", "\tname"])],
             "Values": [Chars(v) for v in vals],
             "Seps": [Chars(x) for x in [" ", "  ", "\n", "\n  ", " \n * "]],
             "Eqs": [[0, 0], [1, 0], [0, 1], [1, 1]] if full else [[0, 0], [1, 1]],
@@ -751,7 +775,7 @@ def check_C18(ctx):
                 continue
             for (tl2, rm2) in ([NAME_POOL[(j + 1) % len(NAME_POOL)]] if q else NAME_POOL):
                 others.append({"ds": Chars(ds2), "de": Chars(de2), "tl": Chars(tl2), "rm": Chars(rm2)})
-        g = lines_gen(5 if q else 6, 2, 2, ["R", "P", "T", "Ru"], blank=False)
+        g = lines_gen(5 if q else 6, 2, 2, ["R", "P", "T", "Ru"], blank=False, pad=["", " ", " -"][(ctx.seed + bi) % 3])
         g["base"] = "GenRespell"
         g["emit"] = "EmitPairs"
         g["consts"]["Spellings"] = others
@@ -836,6 +860,7 @@ def check_C19(ctx):
 
 
 CLI_DOCS_DEFAULT = [
+    "plain text, no tag at all\n  second line\n",
     # expiry instants a few hours around the current instant of the C20 jobs (day 19000 = 2022-01-08T00:00:00Z): a current
     # time re-read in the process's zone, or an offset dropped, changes the decision
     "k\n<!-- <time-limited to='2022-01-08 03:00:00'> -->\nsoon\n<!-- </time-limited> -->\n"
@@ -849,6 +874,7 @@ CLI_DOCS_DEFAULT = [
     "",
 ]
 CLI_DOCS_CUSTOM = [
+    "no tags here\n",
     "x\n/* <tl to='2001-01-01 00:00:00'> */\nold\n/* </tl> */\n/* <rm name='a'> */ra/* </rm> */\n/* <rm name='zz'> */\nrz\n/* </rm> */\n/* <rm name=''> */\nre\n/* </rm> */\ny\n",
 ]
 
@@ -875,7 +901,7 @@ def check_C20(ctx):
     if q:
         zones = [zones[ctx.seed % 4], zones[(ctx.seed + 1) % 4]]
     langs = [""] if q else ["", "C", "en_US.UTF-8", "ja_JP.UTF-8"]
-    ctx.job("cli-defaults", gens=[{"base": "GenCli", "consts": {"Docs": [Chars(d) for d in (CLI_DOCS_DEFAULT[:3] if q else CLI_DOCS_DEFAULT)],
+    ctx.job("cli-defaults", gens=[{"base": "GenCli", "consts": {"Docs": [Chars(d) for d in (CLI_DOCS_DEFAULT[:4] if q else CLI_DOCS_DEFAULT)],
                                                                 "TargetPool": [Chars("a"), Chars("feature1"), Chars("x y")],
                                                                 "Zones": zones, "Langs": langs, "OmitAll": True, "Part": "all", "Currents": TlaSet(["given"])}}],
             invariants=["Inv_C20"], ops=[], cli=True,
@@ -889,7 +915,7 @@ def check_C20(ctx):
             nontrivial=None)
     # growth beyond C20: no (usable) --time-limited-current, the process reads the system clock; the harness reads it before
     # and after the run, Conform!ConfWallClock compares with the library result (reported as DRIFT, never as a verdict)
-    ctx.job("cli-wallclock", gens=[{"base": "GenCli", "consts": {"Docs": [Chars(d) for d in CLI_DOCS_DEFAULT[:3]],
+    ctx.job("cli-wallclock", gens=[{"base": "GenCli", "consts": {"Docs": [Chars(d) for d in CLI_DOCS_DEFAULT[1:4]],
                                                                  "TargetPool": [Chars("a"), Chars("feature1")],
                                                                  "Zones": zones[:2], "Langs": langs[:1], "OmitAll": True, "Part": "stdout",
                                                                  "Currents": TlaSet(["omit", "garbage"])}}],
